@@ -134,10 +134,21 @@ def executor(ck):
         bad = T.t2_all_exits(ed, [0], [c.bb for c in tk]) if tk else [0]
         ck.verdict(bad is None, "4", "T2-all-exits", ed, "drop-takes-task-table", "dropping the executor takes the task table (schedule() then sees None)", "dropping the executor does not take the task table: schedule() keeps accepting futures that will never run", site=ed.where())
         wk = []
-        for body in [ed] + f.closures_of(ed):
+        nest = [ed] + f.closures_of(ed)
+        nest += [c2 for c in nest[1:] for c2 in f.closures_of(c)]
+        for body in nest:
             wk += [cs for cs in body.calls() if cs.f and cs.f["path"] in ("std::task::Waker::wake", "std::task::Waker::wake_by_ref")]
         loops = ed.loops()
-        ck.verdict(bool(wk) and any(any(c.bb in blk for c in ed.calls() if c.name == "catch_unwind" or c in wk) for blk in loops.values()), "4", "T5-loop-exit", ed, "wakes-every-active-task", "every Active::Future is woken in a loop over the taken table (its runnable is rescheduled so that it can be dropped here)", "the executor's drop does not wake the remaining tasks: their futures are never dropped", site=ed.where())
+        in_loop = any(any(c.bb in blk for c in ed.calls() if c.name == "catch_unwind" or c in wk) for blk in loops.values())
+        # the same iteration written with Iterator::for_each over the taken table
+        def holds_wake(c, d=0):
+            return any(x.f and x.f["path"] in ("std::task::Waker::wake", "std::task::Waker::wake_by_ref") for x in c.calls()) or (d < 3 and any(holds_wake(c2, d + 1) for c2 in f.closures_of(c)))
+        for fe in T.calls(ed, name="for_each"):
+            if ed.is_cleanup(fe.bb) or (fe.trait or "") != "std::iter::Iterator":
+                continue
+            if any(holds_wake(c) for c in T.closure_bodies_passed(ed, fe)) and T.tainted_by_call(ed, fe.args[0], [c.bb for c in tk]):
+                in_loop = True
+        ck.verdict(bool(wk) and in_loop, "4", "T5-loop-exit", ed, "wakes-every-active-task", "every Active::Future is woken in a loop over the taken table (its runnable is rescheduled so that it can be dropped here)", "the executor's drop does not wake the remaining tasks: their futures are never dropped", site=ed.where())
         trs = [cs for cs in T.calls(ed, name="try_recv") if T.path_has(ed, cs.args[0], ".incoming")]
         okd = False
         for t in trs:
@@ -234,10 +245,7 @@ def stream(ck):
                         ck.verdict(T.resolves_to_call(cl, item, [p0.bb]), "6", "T6-provenance", cl, "item=poll_next-payload", "the item handed to the callback is the one poll_next produced", "the forwarded item is not poll_next's payload", site=cl.where(cb.bb))
     # parent: end_of_stream => Remove
     caps = common.closure_captures(pe, cl)
-    rets = []
-    for i, j, st in pe.statements():
-        if st["s"] == "assign" and st["pl"]["l"] == 0 and st["rv"]["r"] == "agg" and st["rv"].get("variant") == "Ok" and not pe.is_cleanup(i):
-            rets.append((i, T.agg_variant(pe, st["rv"]["fields"][0])))
+    rets = T.ok_returns(pe)
     rm = [i for i, v in rets if v == {("sources::PostAction", "Remove")}]
     flag_local = None
     for n, (loc, aps, _) in caps.items():
@@ -264,7 +272,7 @@ def stream(ck):
         pg = [cs for cs in nw.calls() if cs.name == "ping" and cs.f["path"].endswith("Ping::ping") and not nw.is_cleanup(cs.bb)]
         mk = T.calls(nw, name="make_ping")
         ok_e, err_e, _ = T.result_split(nw, mk[0].bb) if mk else ([], [], False)
-        okret = [i for i, j, st in nw.statements() if st["s"] == "assign" and st["pl"]["l"] == 0 and st["rv"]["r"] == "agg" and st["rv"].get("variant") == "Ok" and not nw.is_cleanup(i)]
+        okret = [i for i, j, st in nw.statements() if st["s"] == "assign" and st["pl"]["l"] in T.ret_locals(nw) and st["rv"]["r"] == "agg" and st["rv"].get("variant") == "Ok" and not nw.is_cleanup(i)]
         bad = T.t2_all_exits(nw, [x for _, x in ok_e] or [0], [p.bb for p in pg], exits=okret or None) if pg else [0]
         ck.verdict(bad is None, "6", "T2-all-exits", nw, "new=>initial-ping", "a new StreamSource pings itself once, so the stream gets its first poll (and its waker registered)", "StreamSource::new does not ping: the stream is never polled unless something else wakes it", site=nw.where())
     for q in ("<PingWaker as Wake>::wake", "<PingWaker as Wake>::wake_by_ref"):
